@@ -86,9 +86,34 @@ def url_parse(I, args, ins):
         i = s.find(':')
         if i > 0 and s[0].isalpha() and all(ch.isalnum() or ch in '+-.' for ch in s[:i]):
             sc = s[:i].lower()
-        v = ctx.fresh('net/url.URL', 'url')
-        fi = I.prog.field_index('net/url.URL', 'Scheme')
-        v = v.with_field(fi, sc)
+        v = I.prog.zero('net/url.URL')
+        rest = s
+        frag = ''
+        if '#' in rest:
+            rest, frag = rest.split('#', 1)
+        rq = ''
+        force_q = False
+        if '?' in rest:
+            rest, rq = rest.split('?', 1)
+            force_q = rq == ''
+        host, path, opaque = '', rest, ''
+        if sc:
+            rest2 = rest[len(sc) + 1:]
+            if rest2.startswith('//'):
+                hp = rest2[2:]
+                i = hp.find('/')
+                host, path = (hp, '') if i < 0 else (hp[:i], hp[i:])
+            elif rest2.startswith('/'):
+                path = rest2
+            else:
+                opaque, path = rest2, ''
+        elif rest.startswith('//'):
+            hp = rest[2:]
+            i = hp.find('/')
+            host, path = (hp, '') if i < 0 else (hp[:i], hp[i:])
+        T = 'net/url.URL'
+        for name, val in (('Scheme', sc), ('Opaque', opaque), ('Host', host), ('Path', path), ('RawQuery', rq), ('Fragment', frag), ('ForceQuery', force_q)):
+            v = v.with_field(I.prog.field_index(T, name), val)
         return TupleV((ctx.alloc(GStructV(v, {'str': s}), 'url'), None))
     okf = z3.Function('url.ParseOK', z3.StringSort(), z3.BoolSort())
     if not ctx.branch(okf(s)):
@@ -98,3 +123,296 @@ def url_parse(I, args, ins):
     ts = term_scheme(I, s)
     v = v.with_field(fi, ts if ts is not None else z3.simplify(url_scheme_of(s)))
     return TupleV((ctx.alloc(GStructV(v, {'str': s}), 'url'), None))
+
+
+# ------------------------------------------------------------------ query strings as ropes
+# A query text is a z3 string term whose concat parts are: concrete text, single symbolic bytes
+# (str.from_code b), url.QueryEscape(x) applications (x opaque or a concat of symbolic bytes) and opaque strings.
+# url.ParseQuery walks the parts the way net/url does, forking on what each symbolic byte is.
+
+import urllib.parse as _up
+
+QE = z3.Function('url.QueryEscape', z3.StringSort(), z3.StringSort())
+UNRESERVED = set('ABCDEFGHIJKLMNOPQRSTUVWXYZabcdefghijklmnopqrstuvwxyz0123456789-_.~')
+
+
+def go_query_escape(s):
+    out = []
+    for ch in s:
+        if ch in UNRESERVED:
+            out.append(ch)
+        elif ch == ' ':
+            out.append('+')
+        else:
+            out.append('%%%02X' % ord(ch))
+    return ''.join(out)
+
+
+@stub('net/url.QueryEscape')
+def url_query_escape(I, args, ins):
+    s = args[0]
+    if isinstance(s, str):
+        return go_query_escape(s)
+    return QE(s)
+
+
+def _is_from_code(t):
+    return z3.is_app(t) and t.decl().kind() == z3.Z3_OP_STRING_FROM_CODE if hasattr(z3, 'Z3_OP_STRING_FROM_CODE') else (z3.is_app(t) and t.decl().name() == 'str.from_code')
+
+
+def _atoms(t):
+    """Rope atoms of a string term: ('c', ch) / ('b', int term) / ('esc', term) / ('o', term)."""
+    out = []
+    if isinstance(t, str):
+        return [('c', ch) for ch in t]
+    for p in concat_parts(t):
+        if z3.is_string_value(p):
+            from ..runner import z3_unescape
+            out.extend(('c', ch) for ch in z3_unescape(p.as_string()))
+        elif z3.is_app(p) and p.decl().name() == 'str.from_code':
+            out.append(('b', p.arg(0)))
+        elif z3.is_app(p) and p.decl().name() == 'url.QueryEscape':
+            inner = p.arg(0)
+            ia = _atoms(inner)
+            if all(a[0] in ('b', 'c') for a in ia):
+                for a in ia:
+                    if a[0] == 'c':
+                        out.extend(('c', ch) for ch in go_query_escape(a[1]))
+                    else:
+                        out.append(('escb', a[1]))
+            else:
+                out.append(('esc', inner))
+        else:
+            out.append(('o', p))
+    return out
+
+
+def _atoms_to_string(atoms):
+    parts = []
+    cur = ''
+    for a in atoms:
+        if a[0] == 'c':
+            cur += a[1]
+        else:
+            if cur:
+                parts.append(z3.StringVal(cur))
+                cur = ''
+            if a[0] in ('b', 'escb'):
+                parts.append(z3.StrFromCode(a[1]))
+            else:
+                parts.append(a[1])
+    if cur or not parts:
+        if not parts:
+            return cur
+        parts.append(z3.StringVal(cur))
+    if len(parts) == 1:
+        return parts[0] if not z3.is_string_value(parts[0]) else parts[0].as_string()
+    return z3.Concat(*parts)
+
+
+HEX = '0123456789abcdefABCDEF'
+
+
+def parse_query_atoms(I, atoms):
+    """Returns (pairs [(key, value)], error flag) following net/url.parseQuery; symbolic raw bytes fork."""
+    ctx = I.ctx
+    # classify raw symbolic bytes
+    norm = []
+    for a in atoms:
+        if a[0] == 'b':
+            b = a[1]
+            cls = None
+            for ch in '&=;%+#':
+                if ctx.branch(b == ord(ch)):
+                    cls = ch
+                    break
+            if cls is not None:
+                norm.append(('c', cls))
+            else:
+                norm.append(('lit', b))      # a byte that is none of the query metacharacters
+        elif a[0] == 'escb':
+            norm.append(('lit', a[1]))       # escaped byte: unescapes to itself
+        elif a[0] == 'esc':
+            norm.append(('olit', a[1]))      # escaped opaque string: unescapes to the string
+        elif a[0] == 'o':
+            # an opaque string inserted raw: assumed free of query metacharacters (base64/hex texts are not; callers escape them)
+            norm.append(('oraw', a[1]))
+        else:
+            norm.append(a)
+    pairs = []
+    err = False
+    segs = [[]]
+    for a in norm:
+        if a[0] == 'c' and a[1] == '&':
+            segs.append([])
+        else:
+            segs[-1].append(a)
+    for seg in segs:
+        if any(a[0] == 'c' and a[1] == ';' for a in seg):
+            err = True
+            continue
+        if not seg:
+            continue
+        k, v, seen = [], [], False
+        for a in seg:
+            if not seen and a[0] == 'c' and a[1] == '=':
+                seen = True
+            elif seen:
+                v.append(a)
+            else:
+                k.append(a)
+        ku, e1 = _unescape_atoms(k)
+        if e1:
+            err = True
+            continue
+        vu, e2 = _unescape_atoms(v)
+        if e2:
+            err = True
+            continue
+        pairs.append((_atoms_to_string(ku), _atoms_to_string(vu)))
+    return pairs, err
+
+
+def _unescape_atoms(atoms):
+    out = []
+    i = 0
+    while i < len(atoms):
+        a = atoms[i]
+        if a[0] == 'c' and a[1] == '%':
+            if i + 2 >= len(atoms):
+                return out, True
+            h1, h2 = atoms[i + 1], atoms[i + 2]
+            if h1[0] == 'c' and h2[0] == 'c' and h1[1] in HEX and h2[1] in HEX:
+                out.append(('c', chr(int(h1[1] + h2[1], 16))))
+                i += 3
+                continue
+            return out, True
+        if a[0] == 'c' and a[1] == '+':
+            out.append(('c', ' '))
+        elif a[0] == 'lit':
+            out.append(('b', a[1]))
+        elif a[0] in ('olit', 'oraw'):
+            out.append(('o', a[1]))
+        else:
+            out.append(a)
+        i += 1
+    return out, False
+
+
+def make_values(I, pairs):
+    """url.Values (map[string][]string) from ordered pairs."""
+    ctx = I.ctx
+    ents = []
+    for k, v in pairs:
+        placed = False
+        for idx, (ek, ev) in enumerate(ents):
+            if ctx.branch(I.eq(ek, k)):
+                ents[idx] = (ek, ev + [v])
+                placed = True
+                break
+        if not placed:
+            ents.append((k, [v]))
+    m = MapRef(ctx.new_cell(tuple((k, I.make_slice(vs)) for k, vs in ents), 'url.Values'))
+    return m
+
+
+@stub('net/url.ParseQuery')
+def url_parse_query(I, args, ins):
+    q = args[0]
+    pairs, err = parse_query_atoms(I, _atoms(q))
+    m = make_values(I, pairs)
+    return TupleV((m, I.ctx.new_error('url', msg='invalid semicolon separator or escape in query') if err else None))
+
+
+@stub('(*net/url.URL).Query')
+def url_query(I, args, ins):
+    ctx = I.ctx
+    u = ctx.load(ctx.force(args[0]))
+    rq = u[I.prog.field_index('net/url.URL', 'RawQuery')]
+    pairs, err = parse_query_atoms(I, _atoms(rq))
+    return make_values(I, pairs)
+
+
+def _values_entries(I, m):
+    ctx = I.ctx
+    m = ctx.force(m)
+    return list(ctx.store[m.cell]) if m is not None else []
+
+
+@stub('(net/url.Values).Get')
+def values_get(I, args, ins):
+    ctx = I.ctx
+    for k, vs in _values_entries(I, args[0]):
+        if ctx.branch(I.eq(k, args[1])):
+            el = I.slice_elems(vs)
+            return el[0] if el else ''
+    return ''
+
+
+@stub('(net/url.Values).Set')
+def values_set(I, args, ins):
+    ctx = I.ctx
+    m = ctx.force(args[0])
+    if m is None:
+        raise GoPanic('assignment-to-nil-map', ctx.cur_pos)
+    ents = list(ctx.store[m.cell])
+    for i, (k, vs) in enumerate(ents):
+        if ctx.branch(I.eq(k, args[1])):
+            ents[i] = (k, I.make_slice([args[2]]))
+            ctx.store[m.cell] = tuple(ents)
+            return None
+    ents.append((args[1], I.make_slice([args[2]])))
+    ctx.store[m.cell] = tuple(ents)
+    return None
+
+
+@stub('(net/url.Values).Add')
+def values_add(I, args, ins):
+    ctx = I.ctx
+    m = ctx.force(args[0])
+    ents = list(ctx.store[m.cell])
+    for i, (k, vs) in enumerate(ents):
+        if ctx.branch(I.eq(k, args[1])):
+            ents[i] = (k, I.make_slice(I.slice_elems(vs) + [args[2]]))
+            ctx.store[m.cell] = tuple(ents)
+            return None
+    ents.append((args[1], I.make_slice([args[2]])))
+    ctx.store[m.cell] = tuple(ents)
+    return None
+
+
+@stub('(net/url.Values).Del')
+def values_del(I, args, ins):
+    ctx = I.ctx
+    m = ctx.force(args[0])
+    ctx.store[m.cell] = tuple((k, v) for (k, v) in ctx.store[m.cell] if not ctx.branch(I.eq(k, args[1])))
+    return None
+
+
+@stub('(net/url.Values).Has')
+def values_has(I, args, ins):
+    ctx = I.ctx
+    for k, vs in _values_entries(I, args[0]):
+        if ctx.branch(I.eq(k, args[1])):
+            return True
+    return False
+
+
+@stub('(net/url.Values).Encode')
+def values_encode(I, args, ins):
+    ents = _values_entries(I, args[0])
+    if not all(isinstance(k, str) for k, _ in ents):
+        raise Inconclusive('url.Values.Encode with symbolic keys')
+    parts = []
+    for k, vs in sorted(ents, key=lambda e: e[0].encode('latin-1')):
+        for v in I.slice_elems(vs):
+            if parts:
+                parts.append('&')
+            parts.append(go_query_escape(k) + '=')
+            parts.append(go_query_escape(v) if isinstance(v, str) else QE(v))
+    if not parts:
+        return ''
+    if all(isinstance(p, str) for p in parts):
+        return ''.join(parts)
+    zs = [zstr(p) for p in parts]
+    return z3.Concat(*zs)
